@@ -90,6 +90,12 @@ def gen_program(rng):
         name = fresh("val")
         items.append(('def', name, [], [('frag', [str(rng.randrange(1, 90))])]))
         values.append(name); macros[name] = None
+    # a macro whose whole body is the name of another macro (an alias: the one token it delivers is itself an invocation)
+    for v in list(values):
+        if rng.random() < 0.6:
+            name = fresh("ali")
+            items.append(('def', name, [], [('frag', [v])]))
+            values.append(name); macros[name] = None
     for _ in range(rng.randrange(0, 2)):
         name, par = fresh("fn"), fresh("par")
         items.append(('def', name, [par], [('frag', ["(", par, "+", str(rng.randrange(1, 9)), ")"])]))
